@@ -126,9 +126,9 @@ func init() {
 		"os.runtime_args":      func(fr *frame, a []value) value { return []value{"gosym"} },
 		"os.NewFile":           extOsNewFile,
 		"os.Getpagesize":       func(fr *frame, a []value) value { return 4096 },
-		"os.Getenv":    extGetenv,
-		"os.LookupEnv": extLookupEnv,
-		"os.Exit":      func(fr *frame, a []value) value { panic(targetRuntimeError("os.Exit called")) },
+		"os.Getenv":            extGetenv,
+		"os.LookupEnv":         extLookupEnv,
+		"os.Exit":              func(fr *frame, a []value) value { panic(targetRuntimeError("os.Exit called")) },
 
 		// errors / fmt
 		"errors.Is":             extErrorsIs,
